@@ -7,7 +7,7 @@ filter's verdict fixed on every entry, so they do not depend on connect being ri
 import itertools
 
 from logic import AND, OR, NOT, EQ, COUNT, MULTISET_EQ, is_sym
-from nodeops import canon_sequences, used_nodes
+from nodeops import canon_sequences, simple_sequences, used_nodes
 
 DIRECTED = ('digraph', 'sync_digraph')
 FLAVOURS = ('digraph', 'sync_digraph', 'ungraph', 'sync_ungraph')
@@ -299,8 +299,8 @@ def with_step(b, kind, spec, meta):
     return s
 
 
-def scen_target(flavour, alg, n_nodes, max_edges, methods, modes=('path', 'search'), prios=('min',), transposes=(False,)):
-    for seq in graph_shapes(n_nodes, max_edges):
+def scen_target(flavour, alg, n_nodes, max_edges, methods, modes=('path', 'search'), prios=('min',), transposes=(False,), shapes=None):
+    for seq in (shapes if shapes is not None else graph_shapes(n_nodes, max_edges)):
         b = base(flavour, n_nodes, seq, sym_nodevals=(alg == 'pfs'))
         for root in roots_for(seq, n_nodes):
             for tgt in targets_for(seq, n_nodes, root):
@@ -317,8 +317,8 @@ def scen_target(flavour, alg, n_nodes, max_edges, methods, modes=('path', 'searc
                                 yield (flavour, alg, mode, method), with_step(b, 'search', spec, {'seq': seq})
 
 
-def scen_notarget(flavour, alg, n_nodes, max_edges, methods, prios=('min',), transposes=(False,)):
-    for seq in graph_shapes(n_nodes, max_edges):
+def scen_notarget(flavour, alg, n_nodes, max_edges, methods, prios=('min',), transposes=(False,), shapes=None):
+    for seq in (shapes if shapes is not None else graph_shapes(n_nodes, max_edges)):
         b = base(flavour, n_nodes, seq, sym_nodevals=(alg == 'pfs'))
         for root in roots_for(seq, n_nodes):
             for method in methods:
@@ -332,8 +332,8 @@ def scen_notarget(flavour, alg, n_nodes, max_edges, methods, prios=('min',), tra
                         yield (flavour, alg, 'notarget', method), with_step(b, 'search', spec, {'seq': seq})
 
 
-def scen_cycle(flavour, alg, n_nodes, max_edges, methods, prios=('min',), transposes=(False,)):
-    for seq in graph_shapes(n_nodes, max_edges):
+def scen_cycle(flavour, alg, n_nodes, max_edges, methods, prios=('min',), transposes=(False,), shapes=None):
+    for seq in (shapes if shapes is not None else graph_shapes(n_nodes, max_edges)):
         b = base(flavour, n_nodes, seq, sym_nodevals=(alg == 'pfs'))
         for root in roots_for(seq, n_nodes):
             for method in methods:
@@ -347,8 +347,8 @@ def scen_cycle(flavour, alg, n_nodes, max_edges, methods, prios=('min',), transp
                         yield (flavour, alg, 'cycle', method), with_step(b, 'search', spec, {'seq': seq})
 
 
-def scen_order(flavour, n_nodes, max_edges, methods, kinds=('pre', 'post'), modes=('nodes', 'edges'), transposes=(False,)):
-    for seq in graph_shapes(n_nodes, max_edges):
+def scen_order(flavour, n_nodes, max_edges, methods, kinds=('pre', 'post'), modes=('nodes', 'edges'), transposes=(False,), shapes=None):
+    for seq in (shapes if shapes is not None else graph_shapes(n_nodes, max_edges)):
         b = base(flavour, n_nodes, seq)
         for root in roots_for(seq, n_nodes):
             for method in methods:
@@ -396,18 +396,29 @@ def items_for(prop, tier):
         for fl in FLAVOURS:
             items += scen_order(fl, n, m, ('none',))
             items += scen_order(fl, n, mf, ('filter',))
+    if prop == 'C10':
+        # 4 nodes, <=4 edges, unfiltered node orders: cheap and needed for "third child" situations
+        for fl in FLAVOURS:
+            items += scen_order(fl, 4, 4, ('none',), modes=('nodes',), shapes=simple_sequences(4, 4) if tier == 'quick' else None)
     if tier == 'thorough' and prop in ('C04', 'C05', 'C09', 'C10'):
-        # 4 nodes, unfiltered
+        s55 = simple_sequences(5, 5)
+        s45f = simple_sequences(4, 5)
         for fl in FLAVOURS:
             if prop == 'C04':
                 items += scen_target(fl, 'bfs', 4, 4, ('none',), modes=('path',))
+                items += scen_target(fl, 'bfs', 5, 5, ('none',), modes=('path',), shapes=s55)
+                items += scen_target(fl, 'bfs', 4, 5, ('filter',), modes=('path',), shapes=s45f)
             elif prop == 'C05':
                 items += scen_target(fl, 'dfs', 4, 4, ('none',), modes=('path',))
+                items += scen_target(fl, 'dfs', 5, 5, ('none',), modes=('path',), shapes=s55)
             elif prop == 'C09':
                 for alg in ('bfs', 'dfs'):
                     items += scen_cycle(fl, alg, 4, 4, ('none',))
+                items += scen_cycle(fl, 'bfs', 5, 5, ('none',), shapes=s55)
+                if fl in DIRECTED:
+                    items += scen_cycle(fl, 'bfs', 4, 6, ('filter',), shapes=simple_sequences(4, 6))
             elif prop == 'C10':
-                items += scen_order(fl, 4, 4, ('none',), modes=('nodes',))
+                items += scen_order(fl, 5, 5, ('none',), modes=('nodes',), shapes=s55)
     return items
 
 
@@ -432,7 +443,7 @@ def run(prop, tier, seed):
     return scenario_check(
         prop, tier, seed, items, evaluate, sig_of,
         bounds={'nodes': 3, 'max_edges_unfiltered': 3 if tier == 'quick' else 4, 'max_edges_filtered': 3,
-                'thorough_extra': '4 nodes / <=4 edges unfiltered' if tier == 'thorough' else None,
+                'extra_families': ('C10: 4 nodes / <=4 edges unfiltered node orders (quick: simple digraphs only); ' if prop == 'C10' else '') + ('thorough: 4 nodes <=4 edges unfiltered; 5 nodes <=5 edges simple digraphs unfiltered; bfs with filter on simple 4-node graphs (<=5 edges paths, <=6 edges cycles, directed)' if tier == 'thorough' else ''),
                 'symbolic': 'edge values, node values (pfs), filter = uninterpreted F(u,v,e) split on every examined edge',
                 'outside': 'larger graphs; impure filters; node values changing during a search'},
         assumptions=['std models of engine A incl. AHashSet (association list), VecDeque, BinaryHeap (std sift-up / sift-down-to-bottom), validated differentially on every run',
